@@ -723,3 +723,56 @@ pub(crate) fn tap_stats(stats: &Stats, bytes_format: BytesFormat) {
         let _ = file.write_all(line.as_bytes());
     }
 }
+
+// ---------------------------------------------------------------------------
+// Registered entries (plain-data views for the black-box harness)
+// ---------------------------------------------------------------------------
+
+/// The runtime-argument labels of an entry, if it has runtime arguments.
+/// Evaluates the `args` expression through the entry's own `BenchArgs`.
+pub fn entry_arg_names(runner: &crate::entry::BenchEntryRunner) -> Option<Vec<String>> {
+    match runner {
+        crate::entry::BenchEntryRunner::Args(make) => {
+            Some(make().arg_names().iter().map(|s| (*s).to_owned()).collect())
+        }
+        crate::entry::BenchEntryRunner::Plain(_) => None,
+    }
+}
+
+/// (type display name, const label) of one generic instantiation.
+pub fn generic_labels(
+    entry: &crate::entry::GenericBenchEntry,
+) -> (Option<String>, Option<String>) {
+    (
+        entry.ty.as_ref().map(|ty| ty.display_name().to_owned()),
+        entry.const_value.as_ref().map(|c| c.name().to_owned()),
+    )
+}
+
+/// The option fields of an entry as plain data:
+/// (sample_count, sample_size, threads, counters by kind, min_time, max_time,
+/// skip_ext_time, ignore).
+#[allow(clippy::type_complexity)]
+pub fn options_fields(
+    options: &BenchOptions,
+) -> (
+    Option<u32>,
+    Option<u32>,
+    Option<Vec<usize>>,
+    [Option<u64>; 4],
+    Option<Duration>,
+    Option<Duration>,
+    Option<bool>,
+    Option<bool>,
+) {
+    (
+        options.sample_count,
+        options.sample_size,
+        options.threads.as_ref().map(|t| t.to_vec()),
+        [0, 1, 2, 3].map(|k| counter_set_get(&options.counters, k)),
+        options.min_time,
+        options.max_time,
+        options.skip_ext_time,
+        options.ignore,
+    )
+}
